@@ -116,7 +116,7 @@ def gen_program(rng, nclasses=None):
                     ins = ("new-instance", rng.randrange(8), W.Typ(t))
                     site = ("new-instance", "new-instance", t)
                 elif r < 0.95:
-                    t = rng.choice([k.name for k in classes] + ["Lext/E;", "[I", "[[J", "[Lr/K0;", "[Lext/E;", "Ljava/lang/String;"])
+                    t = rng.choice([k.name for k in classes] + ["Lext/E;", "[I", "[[J", "[Lr/K0;", "[Lext/E;", "Ljava/lang/String;", "[[Lr/K0;", "[[[Lext/E;", "[[Lr/K1;", "[Lr/K1;"])
                     ins = ("const-class", rng.randrange(8), W.Typ(t))
                     site = ("const-class", "const-class", t)
                 else:
